@@ -1,3 +1,4 @@
+from copy import deepcopy
 import logging
 import operator
 import pprint as py_pprint
@@ -726,7 +727,10 @@ class StatefulDStream(DStream):
 
     def convert_fn(self, joined):
         input_values, state_list = joined
-        state = state_list[-1] if state_list else None
+        # the update function gets a private copy of the state (as in Spark,
+        # where it is deserialized for the call): the state emitted for an
+        # earlier interval, which a window may still hold, is never modified
+        state = deepcopy(state_list[-1]) if state_list else None
 
         return self._func(input_values, state)
 
